@@ -443,6 +443,9 @@ func (g *gen) refresh(gr *gGrant, kind int) {
 	case 5:
 		scopes = []string{"admin"}
 		aud = []string{"https://evil.example/"}
+	case 6: // an earlier generation replayed by somebody else
+		tok = gr.rts[r.Intn(len(gr.rts))]
+		client = g.otherClient(gr.client).id
 	}
 	obs := g.op(fmt.Sprintf("refresh\t%s\t%s\t%s\t%s\t%s", client, cred, tok, encListS(scopes), encListS(aud)))
 	g.noteTokens(gr, obs)
@@ -959,7 +962,7 @@ func (g *gen) History(n int) {
 		case x < 55 && len(live) > 0:
 			g.refresh(live[r.Intn(len(live))], 0)
 		case x < 65 && len(live) > 0:
-			g.refresh(live[r.Intn(len(live))], 1+r.Intn(5))
+			g.refresh(live[r.Intn(len(live))], 1+r.Intn(6))
 		case x < 72:
 			g.revoke()
 		case x < 84:
